@@ -53,7 +53,7 @@ def b_quick(*a, **k):
     return 1
 
 
-BEH = {'stops': b_stop_when_asked, 'coop': b_coop, 'swallow': b_swallow, 'sleep': b_sleep, 'hog': b_hog, 'stopped': b_coop, 'finished': b_quick, 'notrun': b_quick}
+BEH = {'resumes': b_coop, 'stops': b_stop_when_asked, 'coop': b_coop, 'swallow': b_swallow, 'sleep': b_sleep, 'hog': b_hog, 'stopped': b_coop, 'finished': b_quick, 'notrun': b_quick}
 
 
 def pid_state(pid):
@@ -88,17 +88,26 @@ def main():
         time.sleep(0.4 if beh != 'finished' else 0.8)
         pid = w.pid if kind != 'thread' else None
         out['pid'] = pid
-        if beh == 'stopped' and pid:
+        if beh in ('stopped', 'resumes') and pid:
             os.kill(pid, signal.SIGSTOP)
             time.sleep(0.1)
         if beh == 'finished':
             if persistent:
                 w.close()
             time.sleep(0.4)
-        for op in ops:
+        for opi, op in enumerate(ops):
             name = op[0]
             t0 = time.time()
             box = {}
+            if beh == 'resumes' and opi == 1 and pid:
+                # the child that was unresponsive during the first call comes back in the middle of the second one
+                def cont():
+                    time.sleep(0.15)
+                    try:
+                        os.kill(pid, signal.SIGCONT)
+                    except Exception:
+                        pass
+                threading.Thread(target=cont, daemon=True).start()
 
             def call():
                 try:
